@@ -123,7 +123,35 @@ let run_frame (f : string list) : (string * string) option =
     Some (verdict, "ok")
   | _ -> None
 
+let verbs_list = ["open";"mode";"active";"passive";"user";"logout";"close";"cd";"cdup";"ls";"put";"get";"rename";"pwd";
+                  "mkdir";"rmdir";"del";"stat";"syst";"type";"binary";"ascii";"size";"noop";"rhelp";"help";"exit"]
+let string_of_bytes (l : n list) = String.init (List.length l) (fun i -> Char.chr (int_of_n (List.nth l i)))
+let is_c_space ch = ch = ' ' || (Char.code ch >= 9 && Char.code ch <= 13)
+let run_parse (f : string list) : (string * string) option =
+  match f with
+  | "parse" :: t :: _ | "parse_rt" :: t :: _ ->
+    let line = bytes_of_hex t in
+    let m = match parse_command line with
+      | None -> "invalid"
+      | Some (c, args) ->
+        String.concat " " (string_of_bytes (verb_name c) :: string_of_int (List.length args) :: List.map hex_of_bytes args) in
+    (* reference for the verb: first whitespace-delimited token, ASCII case folded, looked up in the documented list *)
+    let str = string_of_bytes line in
+    let n = String.length str in
+    let i = ref 0 in
+    while !i < n && is_c_space str.[!i] do incr i done;
+    let j = ref !i in
+    while !j < n && not (is_c_space str.[!j]) do incr j done;
+    let tok = String.lowercase_ascii (String.sub str !i (!j - !i)) in
+    let verb_spec = if List.mem tok verbs_list then tok else "invalid" in
+    let spec = match f with
+      | "parse_rt" :: _ :: verb :: args -> String.concat " " (verb :: string_of_int (List.length args) :: args)
+      | _ -> verb_spec in
+    Some (m, spec)
+  | _ -> None
+
 let run (f : string list) : string * string =
+  match run_parse f with Some r -> r | None ->
   match run_ascii f with Some r -> r | None ->
   match run_frame f with Some r -> r | None ->
   match f with
